@@ -133,13 +133,19 @@ fn handle<BIn>(req: &mut Request<BIn>) -> Option<ValidateSNIError> {
     let span = tracing::Span::current();
 
     // Grab (and own) the host header value
-    let host: Option<Authority> = if req.version() == http::Version::HTTP_2 {
-        req.uri().authority().cloned()
-    } else {
+    let host_header = || -> Option<Authority> {
         req.headers()
             .get(header::HOST)
             .and_then(|h| h.to_str().ok())
             .and_then(|s| s.parse().ok())
+    };
+
+    // HTTP/2 requests name their host in the `:authority` pseudo-header (the URI authority),
+    // but may carry a `Host` header instead.
+    let host: Option<Authority> = if req.version() == http::Version::HTTP_2 {
+        req.uri().authority().cloned().or_else(host_header)
+    } else {
+        host_header()
     };
 
     // Grab the TLS connection info
@@ -155,7 +161,8 @@ fn handle<BIn>(req: &mut Request<BIn>) -> Option<ValidateSNIError> {
     {
         if let Some(host) = host {
             span.record("host", host.to_string());
-            if host.host() != sni.host() {
+            // Host names are case-insensitive (RFC 9110 section 4.2.3, RFC 6066 section 3).
+            if !host.host().eq_ignore_ascii_case(sni.host()) {
                 tracing::warn!(header=%host, expected=%sni, "Rejecting request with mismatched SNI and Host");
                 return Some(ValidateSNIError::InvalidSNI {
                     host: host.to_string(),
